@@ -2,7 +2,8 @@
 
 R-C22.1  frozenlist overrides every in-place mutator of `list`; each body, interpreted with its helpers, raises
          GuppyComptimeError (c22_unpack.py); `copy` hands out a plain list.
-R-C22.2  GuppyStructObject.__setattr__ stores a field only when not frozen (raises otherwise);
+R-C22.2  GuppyStructObject.__setattr__ interpreted on {field or not} x {frozen or not}: frozen -> GuppyComptimeError and the values
+         untouched, not frozen -> exactly that field updated, unknown name -> error (c22_usewire.run_setattr; guard shape as fallback);
          unpack_guppy_object, interpreted on a nested tuple/struct/array type with frozen False and True, yields frozenlists
          and frozen struct objects at every level iff frozen (c22_unpack.py; syntactic threading only as fallback);
          trace_function freezes exactly the non-borrowed inputs.
@@ -80,47 +81,50 @@ def run(ctx: Ctx) -> None:
     if sa is None:
         raise AnalysisError("GuppyStructObject.__setattr__ vanished")
     ctx.saw("functions", sa.qualname)
-    stores = [n for n in walk_no_nested(sa.node)
-              if isinstance(n, (ast.Assign, ast.AugAssign, ast.AnnAssign, ast.Delete))
-              and any(isinstance(t, ast.Subscript) and ast.unparse(t.value).endswith("_field_values")
-                      for t in (n.targets if isinstance(n, (ast.Assign, ast.Delete)) else [n.target]))]
-    # also: calls mutating the dict, or delegation to object.__setattr__/super().__setattr__ for fields
-    for c in calls_in(sa.node):
-        if isinstance(c.func, ast.Attribute) and ast.unparse(c.func.value).endswith("_field_values") and c.func.attr in (
-                "update", "setdefault", "pop", "__setitem__", "clear", "popitem"):
-            stores.append(c)
-        if isinstance(c.func, ast.Attribute) and c.func.attr == "__setattr__":
-            stores.append(c)
-    ctx.floor("R-C22.2", "field stores in GuppyStructObject.__setattr__", len(stores), 1)
-    known = booltab.suffix_atomizer({"._frozen": "frozen"})
-    for i, st in enumerate(stores):
-        gs = lexical_guards(sa.node, st) or []
-        try:
-            ok, bad = guards_imply(gs, known, lambda env: env.get("frozen") is False)
-        except Exception as e:  # noqa: BLE001
-            ctx.undecided("R-C22.2", f"{sa.qualname}#store{i}", sa.where, f"guards not evaluable: {e}")
-            continue
-        ctx.check(ok, "R-C22.2", f"{sa.qualname}#store-only-if-not-frozen[{i}]", f"{sa.module.rel}:{st.lineno}",
-                  {"store": ast.unparse(st)[:80], "guards": [(ast.unparse(e)[:60], p) for e, p in gs], "reachable_with": bad},
-                  "a frozen struct object (owned comptime argument) can have a field overwritten in place")
-    # the frozen branch raises GuppyComptimeError
-    frozen_ifs = [n for n in walk_no_nested(sa.node) if isinstance(n, ast.If) and "_frozen" in ast.unparse(n.test)]
-    good = False
-    facts = []
-    for n in frozen_ifs:
-        try:
-            t = booltab.table(n.test, ["frozen"], known)
-        except booltab.Unsupported:
-            continue
-        branch = n.body if t[(True,)] and not t[(False,)] else (n.orelse if t[(False,)] and not t[(True,)] else None)
-        if branch:
-            mr = must_raise(branch)
-            cls = sorted({raised_class(r)[0] for b in branch for r in ast.walk(b) if isinstance(r, ast.Raise)})
-            facts.append({"test": ast.unparse(n.test), "must_raise": mr, "raises": cls})
-            if mr and cls == ["GuppyComptimeError"]:
-                good = True
-    ctx.check(good, "R-C22.2", f"{sa.qualname}#frozen-raises", sa.where, facts,
-              "mutating a frozen struct object must raise GuppyComptimeError (not pass silently / raise something else)")
+    from . import c22_usewire as _c22u
+    if not _c22u.run_setattr(ctx):
+        # fallback: every store into _field_values is guarded by `not frozen`; the frozen branch raises GuppyComptimeError (shape)
+        stores = [n for n in walk_no_nested(sa.node)
+                  if isinstance(n, (ast.Assign, ast.AugAssign, ast.AnnAssign, ast.Delete))
+                  and any(isinstance(t, ast.Subscript) and ast.unparse(t.value).endswith("_field_values")
+                          for t in (n.targets if isinstance(n, (ast.Assign, ast.Delete)) else [n.target]))]
+        # also: calls mutating the dict, or delegation to object.__setattr__/super().__setattr__ for fields
+        for c in calls_in(sa.node):
+            if isinstance(c.func, ast.Attribute) and ast.unparse(c.func.value).endswith("_field_values") and c.func.attr in (
+                    "update", "setdefault", "pop", "__setitem__", "clear", "popitem"):
+                stores.append(c)
+            if isinstance(c.func, ast.Attribute) and c.func.attr == "__setattr__":
+                stores.append(c)
+        ctx.floor("R-C22.2", "field stores in GuppyStructObject.__setattr__", len(stores), 1)
+        known = booltab.suffix_atomizer({"._frozen": "frozen"})
+        for i, st in enumerate(stores):
+            gs = lexical_guards(sa.node, st) or []
+            try:
+                ok, bad = guards_imply(gs, known, lambda env: env.get("frozen") is False)
+            except Exception as e:  # noqa: BLE001
+                ctx.undecided("R-C22.2", f"{sa.qualname}#store{i}", sa.where, f"guards not evaluable: {e}")
+                continue
+            ctx.check(ok, "R-C22.2", f"{sa.qualname}#store-only-if-not-frozen[{i}]", f"{sa.module.rel}:{st.lineno}",
+                      {"store": ast.unparse(st)[:80], "guards": [(ast.unparse(e)[:60], p) for e, p in gs], "reachable_with": bad},
+                      "a frozen struct object (owned comptime argument) can have a field overwritten in place")
+        # the frozen branch raises GuppyComptimeError
+        frozen_ifs = [n for n in walk_no_nested(sa.node) if isinstance(n, ast.If) and "_frozen" in ast.unparse(n.test)]
+        good = False
+        facts = []
+        for n in frozen_ifs:
+            try:
+                t = booltab.table(n.test, ["frozen"], known)
+            except booltab.Unsupported:
+                continue
+            branch = n.body if t[(True,)] and not t[(False,)] else (n.orelse if t[(False,)] and not t[(True,)] else None)
+            if branch:
+                mr = must_raise(branch)
+                cls = sorted({raised_class(r)[0] for b in branch for r in ast.walk(b) if isinstance(r, ast.Raise)})
+                facts.append({"test": ast.unparse(n.test), "must_raise": mr, "raises": cls})
+                if mr and cls == ["GuppyComptimeError"]:
+                    good = True
+        ctx.check(good, "R-C22.2", f"{sa.qualname}#frozen-raises", sa.where, facts,
+                  "mutating a frozen struct object must raise GuppyComptimeError (not pass silently / raise something else)")
 
     # threading of `frozen` through unpack_guppy_object
     up = idx.find_func("unpack_guppy_object", "guppylang_internals.tracing.unpacking")
